@@ -518,7 +518,7 @@ def run(ctx):
     boot.set_components_setting(template_cache_size=128)
     boot.drop_template_cache()
     ev.assumptions = ["CPython with GIL; preemption only between source lines of the scheduling set (every explored schedule is realisable)",
-                      "2 threads per scenario; scheduling set = AST scan (all lines of perfutil/*, util/cache.py, cache.py, template.py, provide.py + lines mentioning module-level mutable globals or shared attributes)"]
+                      "2-3 threads per scenario; scheduling set = AST scan (all lines of perfutil/provide.py, util/cache.py, cache.py, template.py + every line mentioning a module-level mutable global; the lazy media functions and shared attributes in the media scenarios)"]
 
 
 def replay(ctx, case):
